@@ -82,7 +82,14 @@ def run(ctx):
     for part in ("nc", "cc"):
         ctx.tlc_check("MC_Lattice", f"MC_C02_{part}_{ctx.tier}.cfg", coverage=False, min_states=500, min_depth=3)
     # 2. obligations from the spec
-    obs = ctx.tlc_emit("Emit_C02", "Emit_C02_quick.cfg" if ctx.quick else "Emit_C02_thorough.cfg")
+    if ctx.quick:
+        obs = ctx.tlc_emit("Emit_C02", "Emit_C02_quick.cfg")
+    else:
+        # one emission per (kind, heavyness): constant-level evaluation is single threaded in TLC, 24 processes share the lattice
+        sub = dict(S2W="S2W_full", RR="RR_full", OMD="OMD_full", POL="POL_full")
+        obs = ctx.tlc_emit_many("Emit_C02", [common.cfg_text(dict(NFZM={3, 4, 5, 6}, KINDS={k}, PROCS={"EM", "NC", "CC"}, FLAVS={fl},
+                                                                  CKMS={"generic", "unitary"}), sub, spec=None)
+                                             for k in ("F2", "FL", "F3", "g1", "gL", "g4") for fl in ("light", "total", "charm", "bottom")])
     for o in obs:
         o["oid"] = common.oid_of("C02", o["pt"])
     todo = [o for o in obs if o["indomain"]]
